@@ -7,6 +7,7 @@ import (
 	"os"
 	"sort"
 	"strings"
+	"sync"
 )
 
 // traceToStderr: VSIM_TRACE=1 prints every event as it happens (the only way to see the events of a run that kills its worker)
@@ -73,7 +74,15 @@ type RunCtx struct {
 	seq    int
 	sig    []string
 	hasher []string
+	// mu makes the recording methods safe for the free-running legs (several goroutines of one run call them)
+	mu sync.Mutex
+	// muted: events are still numbered but no longer part of the canonical event log (free-running legs, whose
+	// order of events is the Go scheduler's)
+	muted bool
 }
+
+// MuteLog stops recording events in the canonical event log (they keep getting sequence numbers).
+func (rc *RunCtx) MuteLog() { rc.mu.Lock(); rc.muted = true; rc.mu.Unlock() }
 
 func NewRunCtx(t *Tape, prop, tier string, keepLog bool, opts map[string]string) *RunCtx {
 	return &RunCtx{T: t, Prop: prop, Tier: tier, KeepLog: keepLog, Opts: opts,
@@ -84,7 +93,12 @@ func (rc *RunCtx) Out() *Outcome { return rc.out }
 
 // Logf appends one event to the canonical event log. Never draws from the tape, never reads a clock.
 func (rc *RunCtx) Logf(format string, args ...any) {
+	rc.mu.Lock()
+	defer rc.mu.Unlock()
 	rc.seq++
+	if rc.muted {
+		return
+	}
 	line := fmt.Sprintf("%05d ", rc.seq) + fmt.Sprintf(format, args...)
 	rc.hasher = append(rc.hasher, line)
 	if traceToStderr {
@@ -96,7 +110,7 @@ func (rc *RunCtx) Logf(format string, args ...any) {
 }
 
 // Seq returns the global event sequence number (used to stamp porcupine histories).
-func (rc *RunCtx) Seq() int { rc.seq++; return rc.seq }
+func (rc *RunCtx) Seq() int { rc.mu.Lock(); defer rc.mu.Unlock(); rc.seq++; return rc.seq }
 
 func (rc *RunCtx) Scenario(format string, args ...any) {
 	rc.out.Scenario = append(rc.out.Scenario, fmt.Sprintf(format, args...))
@@ -105,9 +119,9 @@ func (rc *RunCtx) Scenario(format string, args ...any) {
 	}
 }
 
-func (rc *RunCtx) Probe(name string) { rc.out.Probes[name]++ }
-func (rc *RunCtx) Fault(kind string) { rc.out.Faults[kind]++ }
-func (rc *RunCtx) Count(name string) { rc.out.Extra[name]++ }
+func (rc *RunCtx) Probe(name string) { rc.mu.Lock(); rc.out.Probes[name]++; rc.mu.Unlock() }
+func (rc *RunCtx) Fault(kind string) { rc.mu.Lock(); rc.out.Faults[kind]++; rc.mu.Unlock() }
+func (rc *RunCtx) Count(name string) { rc.mu.Lock(); rc.out.Extra[name]++; rc.mu.Unlock() }
 func (rc *RunCtx) Buggify(name string) {
 	rc.out.Buggify = append(rc.out.Buggify, name)
 }
